@@ -10,10 +10,15 @@ the frame write that follows it, so an operation list is an interleaving of the 
 at that granularity (see notes/C06.md for the two places where the real code releases the lock
 between the decision and the write).
 
-The model carries a `Fixes` vector: `Fixes.all` is the behaviour of the code with the four
+The model carries a `Fixes` vector: `Fixes.all` is the behaviour of the code with the
 repairs of `fixes/C06-*.patch` applied; switching one off gives the behaviour of the unchanged
 code for that defect, which is what the counter-example theorems and the lanes' classification
 of known findings use.
+
+Round 4 added: PING (acknowledged), PUSH_PROMISE (connection error), informational (1xx)
+responses, HEAD requests, response Content-Length (`bytesRemain`, the over-long response),
+request trailers, DATA frames that are dropped with a stream error (connection-level
+accounting), and the wake-up table for SETTINGS_MAX_CONCURRENT_STREAMS.
 -/
 namespace Req.H2.Conn
 open Req.H2 Req.H2.Flow
@@ -29,10 +34,24 @@ structure Fixes where
   prioIds : Bool
   /-- the 5 priority bytes of a HEADERS frame count against the peer's MAX_FRAME_SIZE -/
   hdrPrio : Bool
+  /-- C06-5: a `Read` that hits "response longer than its Content-Length" still returns the
+  connection-level credit of the bytes it took out of the pipe -/
+  readCredit : Bool := true
+  /-- C06-6: a DATA frame dropped with a stream error (after END_STREAM, before HEADERS, on a
+  HEAD response) is accounted for at connection level -/
+  dataCredit : Bool := true
+  /-- C06-7: request trailers are split with the MAX_FRAME_SIZE in force when they are written -/
+  trailerFrame : Bool := true
+  /-- C06-8: a request without a body announces no trailers and ends its stream on HEADERS -/
+  trailerNoBody : Bool := true
+  /-- C06-9: processing SETTINGS_MAX_CONCURRENT_STREAMS broadcasts on `cc.cond` -/
+  mcsWake : Bool := true
   deriving DecidableEq, Repr, Inhabited
 
-def Fixes.all : Fixes := ⟨true, true, true, true⟩
-def Fixes.legacy : Fixes := ⟨false, false, false, false⟩
+def Fixes.all : Fixes := { maxFrame := true, streamInflow := true, prioIds := true, hdrPrio := true }
+def Fixes.legacy : Fixes :=
+  { maxFrame := false, streamInflow := false, prioIds := false, hdrPrio := false, readCredit := false,
+    dataCredit := false, trailerFrame := false, trailerNoBody := false, mcsWake := false }
 
 structure Cfg where
   /-- `Transport.Settings` as (id, value) pairs; empty = defaults -/
@@ -140,6 +159,8 @@ inductive Frame where
   | continuation (id len : Nat) (endHeaders : Bool)
   | data (id len : Nat) (endStream : Bool)
   | rst (id : Nat)
+  /-- PING; `data` = the 8 opaque octets as a number -/
+  | ping (ack : Bool) (data : Nat)
   deriving DecidableEq, Repr, Inhabited
 
 /-- frames sent by the peer -/
@@ -149,17 +170,38 @@ inductive PFrame where
   | windowUpdate (id inc : Nat)
   | rst (id code : Nat)
   | goaway (last : Nat)
-  /-- response HEADERS (a valid final response, or trailers when sent a second time) -/
-  | headers (id : Nat) (endStream : Bool)
+  /-- a HEADERS frame (header block complete): `status` = the `:status` pseudo-header
+  (0 = none: a trailer block; 100..199 = informational; anything else = the final response),
+  `cl` = the value of a single well-formed Content-Length field -/
+  | resp (id : Nat) (endStream : Bool) (status : Nat) (cl : Option Nat)
   /-- DATA with `len` bytes of data and `pad` bytes of padding overhead (pad length octet
   included; 0 = not padded) -/
   | data (id len pad : Nat) (endStream : Bool)
+  | ping (ack : Bool) (data : Nat)
+  /-- PUSH_PROMISE on stream `id` promising stream `promised` -/
+  | pushPromise (id promised : Nat)
+  deriving DecidableEq, Repr, Inhabited
+
+/-- response HEADERS with status 200 and no Content-Length -/
+@[match_pattern] def PFrame.headers (id : Nat) (endStream : Bool) : PFrame := .resp id endStream 200 none
+/-- a trailer block -/
+@[match_pattern] def PFrame.trailers (id : Nat) (endStream : Bool) : PFrame := .resp id endStream 0 none
+
+/-- what the caller asks for: header block of `hdrLen` bytes, request body of `bodyLen` bytes
+with a declared content length (`known`) or without, method HEAD or not, and `Request.Trailer`
+(`none` = nil; `some n` = at least one key declared, the values encode to `n` bytes when the
+upload ends) -/
+structure Req where
+  hdrLen : Nat
+  bodyLen : Nat
+  known : Bool
+  head : Bool := false
+  trailer : Option Nat := none
   deriving DecidableEq, Repr, Inhabited
 
 inductive Op where
-  /-- `RoundTrip`: header block of `hdrLen` bytes, request body of `bodyLen` bytes with a
-  declared content length (`known`) or without -/
-  | openStream (hdrLen bodyLen : Nat) (known : Bool)
+  /-- `RoundTrip` -/
+  | openReq (r : Req)
   /-- the request body's `Read` hands the writer its next chunk: `n` bytes (0 = as much as the
   scratch buffer holds) -/
   | feed (id n : Nat)
@@ -176,6 +218,10 @@ inductive Op where
   | wake
   | peer (f : PFrame)
   deriving DecidableEq, Repr, Inhabited
+
+/-- `RoundTrip` of a request that is neither HEAD nor carries trailers -/
+@[match_pattern] def Op.openStream (hdrLen bodyLen : Nat) (known : Bool) : Op :=
+  .openReq { hdrLen := hdrLen, bodyLen := bodyLen, known := known }
 
 /-! ## State -/
 
@@ -202,6 +248,18 @@ structure Stream where
   peerEnd : Bool
   /-- `Body.Close` was called (pipe broken) -/
   broken : Bool
+  /-- `cs.isHead` -/
+  head : Bool := false
+  /-- `Request.Trailer` of a request with a body (see `Req.trailer`) -/
+  trailer : Option Nat := none
+  /-- the `maxFrameSize` local of `writeRequestBody`: `cc.maxFrameSize` when the upload began -/
+  upMaxFrame : Nat := 16384
+  /-- `cs.bytesRemain` (`none` = -1: no Content-Length) -/
+  bytesRemain : Option Nat := none
+  /-- `cs.readErr != nil` -/
+  readErr : Bool := false
+  /-- `cs.num1xx` -/
+  num1xx : Nat := 0
   deriving DecidableEq, Repr, Inhabited
 
 structure State where
@@ -221,7 +279,7 @@ structure State where
   seenSettings : Bool
   wantSettingsAck : Bool
   /-- a `RoundTrip` blocked in `awaitOpenSlotForStreamLocked` (strict mode only) -/
-  pendingOpen : Option (Nat × Nat × Bool)
+  pendingOpen : Option Req
   streams : List Stream
   deriving DecidableEq, Repr, Inhabited
 
@@ -301,39 +359,48 @@ cannot fail for a legal SETTINGS_INITIAL_WINDOW_SIZE (`streamOut0_eq`); the Go c
 result, so a failure would leave the window at 0. -/
 def streamOut0 (iw : Nat) : Int := (addWindow 0 (wrap32 iw)).getD 0
 
-/-- `addStreamLocked` + `encodeAndWriteHeaders` + the start of `writeRequestBody`. -/
-def doOpen (st : State) (hdrLen bodyLen : Nat) (known : Bool) : State × List Frame :=
+/-- END_STREAM on the request's HEADERS frame: `endStream := !hasBody && !hasTrailers` in
+`encodeAndWriteHeaders`; with C06-8 a request without a body has no trailers -/
+def endOnHeaders (fx : Fixes) (hasBody : Bool) (trailer : Option Nat) : Bool :=
+  !hasBody && (trailer.isNone || fx.trailerNoBody)
+
+/-- `addStreamLocked` + `encodeAndWriteHeaders` + the start of `writeRequestBody`.
+`writeRequest` sets `cs.sentEndStream` for every request without a body — also when the
+HEADERS frame did not carry END_STREAM (unchanged code, request with declared trailers). -/
+def doOpen (st : State) (r : Req) : State × List Frame :=
   let id := st.nextStreamID
-  let hasBody := !(known && bodyLen == 0)
-  let cl : Int := if known then bodyLen else -1
+  let hasBody := !(r.known && r.bodyLen == 0)
+  let cl : Int := if r.known then r.bodyLen else -1
   let s : Stream :=
     { id := id, live := true,
       out := streamOut0 st.initialWindowSize,
-      known := known, bodyRemain := bodyLen, chunk := 0,
+      known := r.known, bodyRemain := r.bodyLen, chunk := 0,
       scratch := (scratchLen cl st.maxFrameSize).toNat,
       sentEnd := !hasBody,
       inflow := ⟨streamInflow0 st.cfg, 0⟩,
-      gotHeaders := false, noBody := false, buffered := 0, peerEnd := false, broken := false }
-  let fs := headerFrames (hdrLen + 1) id hdrLen (!hasBody) st.maxFrameSize st.cfg.hdrPrio
-    st.cfg.fixes.hdrPrio true
+      gotHeaders := false, noBody := false, buffered := 0, peerEnd := false, broken := false,
+      head := r.head, trailer := if hasBody then r.trailer else none,
+      upMaxFrame := st.maxFrameSize }
+  let fs := headerFrames (r.hdrLen + 1) id r.hdrLen (endOnHeaders st.cfg.fixes hasBody r.trailer)
+    st.maxFrameSize st.cfg.hdrPrio st.cfg.fixes.hdrPrio true
   ({ st with nextStreamID := id + 2, streams := st.streams ++ [s] }, fs)
 
-def openStream (st : State) (hdrLen bodyLen : Nat) (known : Bool) : State × List Frame :=
+def openStream (st : State) (r : Req) : State × List Frame :=
   if st.pendingOpen.isSome then (st, [])             -- the lane never does this (reqHeaderMu)
   else if !canTake st then (st, [])                  -- errClientConnUnusable
-  else if liveCount st.streams < st.maxConcurrent then doOpen st hdrLen bodyLen known
-  else ({ st with pendingOpen := some (hdrLen, bodyLen, known) }, [])   -- strict: wait for a slot
+  else if liveCount st.streams < st.maxConcurrent then doOpen st r
+  else ({ st with pendingOpen := some r }, [])       -- wait for a slot
 
 /-- a blocked `RoundTrip` proceeds as soon as a slot is free (or fails when the connection
 became unusable). -/
 def resumePending (st : State) : State × List Frame :=
   match st.pendingOpen with
   | none => (st, [])
-  | some (h, b, k) =>
+  | some r =>
     let st0 := { st with pendingOpen := none }
     if st.closed then (st0, [])
     else if !canTake st0 then (st0, [])
-    else if liveCount st.streams < st.maxConcurrent then doOpen st0 h b k
+    else if liveCount st.streams < st.maxConcurrent then doOpen st0 r
     else (st, [])
 
 def feed (st : State) (id n : Nat) : State × List Frame :=
@@ -354,26 +421,51 @@ def available (connOut out : Int) : Int := if connOut < out then connOut else ou
 def dataStep (connOut : Int) (maxFrame : Nat) (s : Stream) : Int × Stream × Frame :=
   let take := awaitTake (available connOut s.out) s.chunk maxFrame
   let chunk' := s.chunk - take.toNat
-  let last := decide (chunk' = 0) && decide (s.bodyRemain = 0) && s.known
+  let last := decide (chunk' = 0) && decide (s.bodyRemain = 0) && s.known && s.trailer.isNone
   (connOut - take, { s with out := s.out - take, chunk := chunk', sentEnd := last },
    Frame.data s.id take.toNat last)
+
+/-- after the last body byte: is an empty DATA frame with END_STREAM still to be written? (body
+of unknown length without trailers; declared trailers that encode to nothing) -/
+def endOwed (s : Stream) : Bool :=
+  match s.trailer with
+  | none => !s.known
+  | some n => n == 0
 
 def writeStep (connOut : Int) (maxFrame : Nat) (s : Stream) : Option (Int × Stream × Frame) :=
   if !s.live || s.sentEnd then none
   else if s.chunk = 0 then
-    if s.bodyRemain = 0 ∧ !s.known then
+    -- the body is written and END_STREAM is still owed: an empty DATA frame, unless there are
+    -- trailers to send (`trailerStep`)
+    if s.bodyRemain = 0 ∧ endOwed s then
       some (connOut, { s with sentEnd := true }, Frame.data s.id 0 true)
     else none
   else if available connOut s.out ≤ 0 then none
   else some (dataStep connOut maxFrame s)
 
+/-- the end of `writeRequestBody` for a request with trailers: HEADERS (+ CONTINUATION) with
+END_STREAM, split by `writeHeaders` with the frame size of the `maxFrameSize` local — read
+again under `cc.wmu` with C06-7, else the value from the beginning of the upload. -/
+def trailerStep (st : State) (s : Stream) : Option (Stream × List Frame) :=
+  match s.trailer with
+  | none => none
+  | some n =>
+    if s.live ∧ ¬ s.sentEnd ∧ s.chunk = 0 ∧ s.bodyRemain = 0 ∧ 0 < n then
+      let mf := if st.cfg.fixes.trailerFrame then st.maxFrameSize else s.upMaxFrame
+      some ({ s with sentEnd := true },
+            headerFrames (n + 1) s.id n true mf st.cfg.hdrPrio st.cfg.fixes.hdrPrio true)
+    else none
+
 def write (st : State) (id : Nat) : State × List Frame :=
   match findStream st.streams id with
   | none => (st, [])
   | some s =>
-    match writeStep st.connOut st.maxFrameSize s with
-    | none => (st, [])
-    | some (c, s', f) => (settle { st with connOut := c } s', [f])
+    match trailerStep st s with
+    | some (s', fs) => (settle st s', fs)
+    | none =>
+      match writeStep st.connOut st.maxFrameSize s with
+      | none => (st, [])
+      | some (c, s', f) => (settle { st with connOut := c } s', [f])
 
 def cancel (st : State) (id : Nat) : State × List Frame :=
   match findStream st.streams id with
@@ -392,14 +484,6 @@ def readCore (st : State) (s : Stream) (k : Nat) : State × List Frame :=
                  streams := setStream st.streams { s with inflow := si, buffered := s.buffered - k } },
        wuFrame 0 connAdd ++ wuFrame s.id streamAdd)
 
-def read (st : State) (id n : Nat) : State × List Frame :=
-  match findStream st.streams id with
-  | none => (st, [])
-  | some s =>
-    if s.gotHeaders ∧ ¬ s.noBody ∧ ¬ s.broken ∧ s.buffered > 0 ∧ n > 0 then
-      readCore st s (if n < s.buffered then n else s.buffered)
-    else (st, [])
-
 /-- `Body.Close` on a stream that may still be in `cc.streams` -/
 def closeStream (st : State) (s s' : Stream) : State × List Frame :=
   if s.live then terminate st s' false
@@ -413,6 +497,31 @@ def creditConn (r : State × List Frame) (n : Nat) : State × List Frame :=
     | .panic => ({ r.1 with panicked := true, closed := true }, r.2)
     | .ok (ci, connAdd) => ({ r.1 with connIn := ci }, r.2 ++ wuFrame 0 connAdd)
   else r
+
+/-- `Read` took `k` bytes out of the pipe, more than the declared Content-Length had left: the
+caller gets the declared rest and an error, the stream is aborted (`cs.abortStream`), later
+`Read`s fail at once. Unchanged code: returns before the flow-control code — the `k` bytes are
+never credited at connection level; C06-5: they are. Nothing is credited at stream level (the
+stream is over). -/
+def readOverlong (st : State) (s : Stream) (k : Nat) : State × List Frame :=
+  let r := closeStream st s { s with buffered := s.buffered - k, readErr := true }
+  if st.cfg.fixes.readCredit then creditConn r k else r
+
+/-- `k` bytes come out of the pipe: the `cs.bytesRemain` bookkeeping of `Read` -/
+def readK (st : State) (s : Stream) (k : Nat) : State × List Frame :=
+  match s.bytesRemain with
+  | none => readCore st s k
+  | some rem =>
+    if k > rem then readOverlong st s k
+    else readCore st { s with bytesRemain := some (rem - k) } k
+
+def read (st : State) (id n : Nat) : State × List Frame :=
+  match findStream st.streams id with
+  | none => (st, [])
+  | some s =>
+    if s.gotHeaders ∧ ¬ s.noBody ∧ ¬ s.broken ∧ ¬ s.readErr ∧ s.buffered > 0 ∧ n > 0 then
+      readK st s (if n < s.buffered then n else s.buffered)
+    else (st, [])
 
 def close (st : State) (id : Nat) : State × List Frame :=
   match findStream st.streams id with
@@ -435,7 +544,10 @@ def deltaStream (delta : Int) (s : Stream) : Stream :=
 
 /-- `processSettingsNoWrite` on one setting; `none` = connection error. -/
 def applySetting (st : State) (seenMax : Bool) (p : Nat × Nat) : Option (State × Bool) :=
-  if p.1 = sMaxFrameSize then some ({ st with maxFrameSize := p.2 }, seenMax)
+  if p.1 = sMaxFrameSize then
+    -- RFC 9113 section 6.5.2: outside [2^14, 2^24) is a connection error (PROTOCOL_ERROR)
+    if p.2 < 16384 ∨ p.2 > 16777215 then none
+    else some ({ st with maxFrameSize := p.2 }, seenMax)
   else if p.1 = sMaxConcurrentStreams then some ({ st with maxConcurrent := p.2 }, true)
   else if p.1 = sInitialWindowSize then
     if p.2 > 2147483647 then none
@@ -503,16 +615,45 @@ def abortAbove (last : Nat) : List Nat → State → State × List Frame
 def peerGoAway (st : State) (last : Nat) : State × List Frame :=
   abortAbove last (st.streams.map (·.id)) { st with goAway := true }
 
-def peerHeaders (st : State) (id : Nat) (endStream : Bool) : State × List Frame :=
+/-- `processHeaders` / `handleResponse` / `processTrailers`. Before the final response:
+a block without `:status` is a stream error, an informational response is skipped (stream error
+when it carries END_STREAM or is the sixth one), anything else is the final response — its body
+is `noBody` when the stream ended or the request was HEAD, else `cs.bytesRemain` is the declared
+Content-Length. After the final response every HEADERS frame is a trailer block: connection
+error unless it has END_STREAM and no pseudo-header. -/
+def peerResp (st : State) (id : Nat) (endStream : Bool) (status : Nat) (cl : Option Nat) :
+    State × List Frame :=
   match findStream st.streams id with
   | none => (st, [])
   | some s =>
     if !s.live then (st, [])
     else if s.peerEnd then terminate st s false
     else if !s.gotHeaders then
-      (settle st { s with gotHeaders := true, noBody := endStream, peerEnd := endStream }, [])
-    else if !endStream then connError st      -- trailers without END_STREAM
+      if status = 0 then terminate st s false
+      else if 100 ≤ status ∧ status ≤ 199 then
+        if endStream ∨ 5 ≤ s.num1xx then terminate st s false
+        else ({ st with streams := setStream st.streams { s with num1xx := s.num1xx + 1 } }, [])
+      else
+        (settle st { s with gotHeaders := true, noBody := endStream || s.head, peerEnd := endStream,
+                            bytesRemain := if endStream || s.head then none else cl }, [])
+    else if status ≠ 0 ∨ !endStream then connError st
     else (settle st { s with peerEnd := true }, [])
+
+/-- a DATA frame of `flen` flow-controlled bytes that is dropped with a stream error
+(`endStreamError`: DATA after END_STREAM, before the response HEADERS, on a HEAD response).
+Unchanged code: no flow-control bookkeeping at all (the peer's and the client's connection
+windows drift apart by `flen`); C06-6: taken from the connection window and handed straight
+back, as for DATA on a forgotten stream. -/
+def discardData (st : State) (s : Stream) (flen : Int) : State × List Frame :=
+  let r := terminate st s false
+  if st.cfg.fixes.dataCredit ∧ flen > 0 then
+    let (ci, ok) := Inflow.take st.connIn flen
+    match Inflow.add ci flen with
+    | .panic => panicState st
+    | .ok (ci', connAdd) =>
+      if !ok then connError st
+      else ({ r.1 with connIn := ci' }, r.2 ++ wuFrame 0 connAdd)
+  else r
 
 def peerData (st : State) (id len pad : Nat) (endStream : Bool) : State × List Frame :=
   let flen : Int := (len + pad : Nat)
@@ -528,7 +669,7 @@ def peerData (st : State) (id len pad : Nat) (endStream : Bool) : State × List 
         else ({ st with connIn := ci' }, wuFrame 0 connAdd)
     else (st, [])
   | some s =>
-    if s.peerEnd ∨ ¬ s.gotHeaders then terminate st s false
+    if s.peerEnd ∨ ¬ s.gotHeaders ∨ (s.head ∧ 0 < len) then discardData st s flen
     else if flen > 0 then
       let (ci, si, ok) := takeInflows st.connIn s.inflow flen
       if !ok then connError st
@@ -543,22 +684,32 @@ def peerData (st : State) (id len pad : Nat) (endStream : Bool) : State × List 
             (settle { st with connIn := ci' } s', wuFrame 0 sendConn ++ wuFrame id sendStream)
     else (settle st { s with peerEnd := endStream }, [])
 
+/-- `processPing`: a PING is answered with the same octets; an acknowledgement wakes whoever
+called `ClientConn.Ping` (not a frame matter). -/
+def peerPing (st : State) (ack : Bool) (data : Nat) : State × List Frame :=
+  if ack then (st, []) else (st, [Frame.ping true data])
+
+/-- `processPushPromise`: always a connection error (server push is never accepted). -/
+def peerPushPromise (st : State) : State × List Frame := connError st
+
 def peer (st : State) : PFrame → State × List Frame
   | .settings vals => peerSettings st vals
   | .settingsAck => peerSettingsAck st
   | .windowUpdate id inc => peerWindowUpdate st id inc
   | .rst id code => peerRst st id code
   | .goaway last => peerGoAway st last
-  | .headers id e => peerHeaders st id e
+  | .resp id e status cl => peerResp st id e status cl
   | .data id len pad e => peerData st id len pad e
+  | .ping ack data => peerPing st ack data
+  | .pushPromise _ _ => peerPushPromise st
 
 /-! ## Well-formed operations
 
 What the theorems assume about the environment: a request always has a non-empty header
-block (`encodeHeaders` emits at least the pseudo-header fields), the peer's
-SETTINGS_MAX_FRAME_SIZE is inside the range RFC 9113 section 6.5.2 allows (the client does not
-validate it: a value of 0 makes `writeHeaders` loop forever — C07's subject), and a
-WINDOW_UPDATE increment is a 31-bit number (the frame parser masks the reserved bit). -/
+block (`encodeHeaders` emits at least the pseudo-header fields) and a WINDOW_UPDATE increment is
+a 31-bit number (the frame parser masks the reserved bit). Nothing is assumed about the peer's
+SETTINGS: a SETTINGS_MAX_FRAME_SIZE outside the range RFC 9113 section 6.5.2 allows is rejected
+by `processSettingsNoWrite` (since C07's repair) and by `applySetting`. -/
 
 /-- a caller fingerprint that advertises legal values: SETTINGS_INITIAL_WINDOW_SIZE and the
 connection window (65535 + the initial WINDOW_UPDATE) do not exceed 2^31-1 -/
@@ -567,19 +718,18 @@ def Cfg.ok (cfg : Cfg) : Prop :=
   connFlowAdvertised cfg.connFlow + 65535 ≤ 2147483647
 
 def PFrame.ok : PFrame → Prop
-  | .settings vals => ∀ p ∈ vals, p.1 = sMaxFrameSize → 16384 ≤ p.2
   | .windowUpdate _ inc => inc ≤ 2147483647
   | _ => True
 
 def Op.ok : Op → Prop
-  | .openStream h _ _ => 0 < h
+  | .openReq r => 0 < r.hdrLen
   | .peer f => f.ok
   | _ => True
 
 /-! ## The machine -/
 
 def apply (st : State) : Op → State × List Frame
-  | .openStream h b k => openStream st h b k
+  | .openReq r => openStream st r
   | .feed id n => feed st id n
   | .write id => write st id
   | .cancel id => cancel st id
@@ -588,14 +738,35 @@ def apply (st : State) : Op → State × List Frame
   | .wake => (st, [])
   | .peer f => peer st f
 
+/-- the Go functions that sleep on `cc.cond` (bridged to the source: Bridge/C06 `cond_waiters`):
+graceful shutdown, the parked `RoundTrip` (`State.pendingOpen`), the body writers (`write`) -/
+def condWaiters : List String :=
+  ["ClientConn.Shutdown", "ClientConn.awaitOpenSlotForStreamLocked", "clientStream.awaitFlowControl"]
+
+/-- the Go functions behind the table `wakes` / the wake-up condition of `step`, each of which
+must reach a `cc.cond.Broadcast()` (bridged to the source: Bridge/C06 `wake_sites_broadcast`):
+a stream leaves `cc.streams` (`liveCount` drops); a stream is aborted — cancel, `Body.Close`,
+reset, stream error, GOAWAY; the upload is stopped; WINDOW_UPDATE; SETTINGS; the connection is
+torn down (`st1.closed`) -/
+def wakeSites : List String :=
+  ["ClientConn.forgetStreamID", "clientStream.abortStreamLocked", "clientStream.abortRequestBodyWrite",
+   "clientConnReadLoop.processWindowUpdate", "clientConnReadLoop.processSettingsNoWrite",
+   "clientConnReadLoop.cleanup"]
+
 /-- does the operation end with a `cc.cond.Broadcast()` (which is what lets a `RoundTrip`
 blocked in `awaitOpenSlotForStreamLocked` look again)? A stream was forgotten or aborted, a
-WINDOW_UPDATE was applied, or SETTINGS_INITIAL_WINDOW_SIZE was processed. (A SETTINGS frame
-that only raises MAX_CONCURRENT_STREAMS does not wake the waiter.) -/
-def wakes (st st1 : State) : Op → Bool
+WINDOW_UPDATE was applied, or SETTINGS_INITIAL_WINDOW_SIZE was processed. (Unchanged code: a
+SETTINGS frame that only raises the stream limit does not wake the waiter.) -/
+def wakes (st st1 : State) (op : Op) : Bool :=
+  match op with
   | .peer (.windowUpdate id _) =>
     id == 0 || (match findStream st.streams id with | some s => s.live | none => false)
-  | .peer (.settings vals) => vals.any (·.1 == sInitialWindowSize)
+  | .peer (.settings vals) =>
+    -- SETTINGS_INITIAL_WINDOW_SIZE processed; with C06-9 also: the stream limit went up
+    -- (SETTINGS_MAX_CONCURRENT_STREAMS raised, or the first SETTINGS frame replacing the initial
+    -- 100 by the default 1000)
+    vals.any (·.1 == sInitialWindowSize) ||
+    (st.cfg.fixes.mcsWake && decide (st.maxConcurrent < st1.maxConcurrent))
   | .wake => true
   -- `transportResponseBody.Close` calls `abortStream` (which broadcasts) even when the stream
   -- has long left `cc.streams`
@@ -609,7 +780,8 @@ def step (st : State) (op : Op) : State × List Frame :=
   if st.closed then (st, [])
   else
     let (st1, fs1) := apply st op
-    if wakes st st1 op || decide (liveCount st1.streams < liveCount st.streams) then
+    -- (the read loop's `cleanup` broadcasts when the connection is torn down)
+    if wakes st st1 op || decide (liveCount st1.streams < liveCount st.streams) || st1.closed then
       let (st2, fs2) := resumePending st1
       (st2, fs1 ++ fs2)
     else (st1, fs1)
